@@ -185,7 +185,8 @@ class CoordGeo(object):
         if type(self.lat) == float:  # Decimal Degrees (float)
             # Use functions to convert from Decimal Degrees (float)
             if notation == float:
-                pass
+                new_lat = self.lat
+                new_lon = self.lon
             elif notation == DECAngle:
                 new_lat = DECAngle(self.lat)
                 new_lon = DECAngle(self.lon)
